@@ -46,8 +46,7 @@ func ruleLabelFormatDirection(r *Run) {
 		if !ok || typeKey(base.Type()) != "RenameLabel" {
 			return
 		}
-		src := stripConv(st.Val)
-		c, _, isEx := extractOf(src)
+		c, isEx := tokenSourceCall(st.Val)
 		if !isEx {
 			return
 		}
@@ -163,7 +162,7 @@ func ruleLabelFormatDirection(r *Run) {
 		if !ok || typeKey(base.Type()) != "LabelTemplate" {
 			return
 		}
-		if c, _, isEx := extractOf(stripConv(st.Val)); isEx && instrDominates(c, eqConsume) {
+		if c, isEx := tokenSourceCall(st.Val); isEx && instrDominates(c, eqConsume) {
 			tmplLhs = n
 		}
 	})
@@ -1046,4 +1045,36 @@ func ruleRewriteLoopsWhole(r *Run) {
 			o.OK("%d loop(s) over the stage's list, none can be left early", n).At(r.pos(fn.Pos()))
 		}
 	}
+}
+
+// tokenSourceCall: the parser call a stored identifier comes from: the value is a result of the
+// call, or the text of a token the call returned (through conversions and local copies).
+func tokenSourceCall(v ssa.Value) (*ssa.Call, bool) {
+	for d := 0; d < 8; d++ {
+		v = stripConv(unspill(v))
+		if c, _, ok := extractOf(v); ok {
+			return c, true
+		}
+		if c, ok := v.(*ssa.Call); ok {
+			return c, true
+		}
+		if fl, ok := v.(*ssa.Field); ok {
+			v = fl.X
+			continue
+		}
+		if _, base, ok := loadOfField(v); ok {
+			if al, isA := base.(*ssa.Alloc); isA {
+				sts := storesTo(al)
+				if len(sts) != 1 {
+					return nil, false
+				}
+				v = sts[0].Val
+				continue
+			}
+			v = base
+			continue
+		}
+		return nil, false
+	}
+	return nil, false
 }
